@@ -556,7 +556,8 @@ def family_deep(seed=0, nmax=5, extra=24):
 # ------------------------------------------------------------------ raw (hand-templated) programs
 
 class RawSpec:
-    def __init__(self, files, label, expect='accept', reject_props=None, family='raw', naming='plain', extra_pkgs=None, compile_props=None):
+    def __init__(self, files, label, expect='accept', reject_props=None, family='raw', naming='plain', extra_pkgs=None, compile_props=None, ext_modules=None):
+        self.ext_modules = ext_modules or {}   # module path -> {relative file: source}: dependencies outside the corpus module
         self.compile_props = compile_props or ['C01']
         self.files = files              # filename -> source ({PKG} is replaced by the package name)
         self.label = label
@@ -729,8 +730,25 @@ def family_reject():
 
 def family_packages():
     """F7: providers and sets spread over several packages, including packages with the same name under different
-    import paths that export equally named providers, and two injectors in one package (shared object cache)."""
+    import paths that export equally named providers, two injectors in one package (shared object cache), and
+    providers from external modules (which the GOPATH+vendor run of the C16 supplement resolves from vendor/),
+    one of them with the text vendor/ inside a path element."""
     specs = []
+    ext = {
+        'example.org/vlib': {'vlib.go': 'package vlib\n\ntype Cfg struct{ ID int }\n\nfunc NewCfg() Cfg { return Cfg{ID: 4242} }\n'},
+        'example.org/govendor/ctx': {'ctx.go': 'package ctx\n\ntype Ctx struct{ ID int }\n\nfunc NewCtx() *Ctx { return &Ctx{ID: 4343} }\n'},
+    }
+    files = {
+        'providers.go': ('package {PKG}\n\nimport (\n\t"example.com/corpus/vrt"\n\t"example.org/govendor/ctx"\n\t"example.org/vlib"\n)\n\ntype App struct{ ID int }\n\n'
+                         'func NewApp(c vlib.Cfg, x *ctx.Ctx) App {\n\tid, _ := vrt.Call(0, false, c.ID, x.ID)\n\treturn App{ID: id}\n}\n'),
+        'wire.go': ('//go:build wireinject\n// +build wireinject\n\npackage {PKG}\n\nimport (\n\t"github.com/google/wire"\n\t"example.org/govendor/ctx"\n\t"example.org/vlib"\n)\n\n'
+                    'func Inject() App {\n\tpanic(wire.Build(vlib.NewCfg, ctx.NewCtx, NewApp))\n}\n\nfunc InjectCtx() (*ctx.Ctx, error) {\n\tpanic(wire.Build(ctx.NewCtx))\n}\n'),
+        'zz_driver.go': ('//go:build !wireinject\n// +build !wireinject\n\npackage {PKG}\n\nimport "example.com/corpus/vrt"\n\nfunc VDrive() {\n'
+                         '\tspec := &vrt.Spec{Nodes: []vrt.Node{{Name: "NewApp", Kind: vrt.KFunc, Params: []vrt.Ref{{Node: -1, Const: 4242}, {Node: -1, Const: 4343}}}}, Result: []vrt.Ref{{Node: 0}}, ArgIDs: make([][]int, 1)}\n'
+                         '\tvrt.Reset()\n\tres := Inject()\n\tvrt.Check(spec, vrt.Outcome{Result: []int{res.ID}, CleanupNil: true})\n'
+                         '\tc, err := InjectCtx()\n\tvrt.A("C02", err == nil && c != nil && c.ID == 4343, "injector returning a type of an external module")\n}\n'),
+    }
+    specs.append(RawSpec(files, 'providers and types from external modules (one import path with the text vendor/ inside an element)', family='packages', ext_modules=ext))
     def cfg(node):
         return ('package config\n\nimport (\n\t"example.com/corpus/vrt"\n\t"example.com/corpus/{PKG}/settings"\n\t"github.com/google/wire"\n)\n\n'
                 'func New() settings.Settings {\n\tid, _ := vrt.Call(%d, false)\n\treturn settings.Settings{ID: id}\n}\n\nvar Set = wire.NewSet(New)\n' % node)
